@@ -3,7 +3,7 @@
    which atomic replacement, old-or-new after a crash and durability after close
    follow.  Stdlib only. *)
 From Coq Require Import NArith List Bool Lia.
-From LC Require Import Base.Lib Model.Durability.
+From LC Require Import Base.Lib Gen.Durability_gen Model.Durability.
 Import ListNotations.
 Open Scope N_scope.
 
@@ -805,3 +805,29 @@ Proof.
   cbv zeta. split; [exact H1|]. split; [exact H2|]. exists 2, 2. split; [exact H3|].
   intros d Hd. rewrite H4 in Hd. inversion Hd; subst d. reflexivity.
 Qed.
+
+(* no accepted change is ever forgotten: in every reachable live state the
+   dictionary's contents are on disk, or in the snapshot of the writer in flight,
+   or the dirty flag is set (so the next flush, or drop, will write them) *)
+Lemma nothing_forgotten v d0 l :
+  let s := run v l (init d0) in
+  st_pc s <> Crashed ->
+  m_dirty (st_mem s) = true \/
+  match m_handle (st_mem s) with
+  | None => exists d, disk s = Some d /\ forall k, get k d = contents (st_mem s) k
+  | Some w => forall k, get k (w_snap w) = contents (st_mem s) k
+  end.
+Proof.
+  cbv zeta. intros Hnc. destruct (reachable_Inv v d0 l) as (d & Hp & Hl).
+  destruct (Hl Hnc) as (_ & Hcl & Hw).
+  destruct (m_dirty (st_mem (run v l (init d0)))) eqn:Hd; [now left | right].
+  destruct (m_handle (st_mem (run v l (init d0)))) as [w|] eqn:Hh.
+  - destruct (Hw w eq_refl) as (_ & Hc & _). now apply Hc.
+  - exists d. split; [unfold disk; now rewrite Hp | now apply Hcl].
+Qed.
+
+(* ------------------------------------------------------------------ *)
+(* T1: the order of the calls in TrieBuilder::build, read from the source on every
+   run, is the one wr_step implements; the temp file is a sibling of the path *)
+Lemma build_call_order : build_calls = writer_program /\ build_tmp_distinct = true.
+Proof. split; reflexivity. Qed.
